@@ -39,6 +39,40 @@ CHECKS = {
         note="overlap precondition is computed from the reported peak days/durations only",
         ref="DESIGN.md section 2 C08",
     ),
+    "C09": dict(
+        technique="wrapper on BaseGHE._simulate_detailed recording every call; independent O(n^2) superposition oracle; metamorphic relations",
+        text="Exploration: real GHE objects (all pipe types, 1..400 boreholes) are driven by random load sequences/time axes/monotone g tables, "
+        "by simulate(HYBRID) on generated profiles and by simulate(HOURLY) for 12/24 months; every returned temperature is compared with the "
+        "harness's own evaluation of the documented formula (1e-9 of the span) plus zero-load, scaling, sign and shift relations.",
+        note="Rb* from pygfunction and the g table the tool passed to the routine are inputs; own t_s, k, H, N, m_dot, c_p reading",
+        ref="DESIGN.md section 2 C09",
+    ),
+    "C10": dict(
+        technique="taps on fill_radial_cells and on the tridiagonal solver (per-step online heat balance); independent finer-mesh solver",
+        text="Exploration: the real radial model runs for generated boreholes (all pipe types through to_single(), H 20-400 m incl. extremes) while "
+        "the cell table and every implicit step are observed: tiling, fluid thermal mass, layer resistances, per-step and total heat balance, "
+        "monotone/finite response, and agreement with an independent solver (3x mesh, dt 30 s) within 0.5 %. The far-field leak for H > ~325 m "
+        "is a listed known finding.",
+        note="pygfunction resistances are inputs to both solvers; the reference shares the layered-problem definition, not the code",
+        ref="DESIGN.md section 2 C10",
+    ),
+    "C11": dict(
+        technique="wrapper on combine_sts_lts; post-conditions on interpolation and radius correction; UHTR g-function vs own finite-line-source integral",
+        text="Exploration: every combine_sts_lts call (direct feeds and grab_g_function of real GHEs with the short-time end on both sides of -8.5) "
+        "is judged for ordering/truncation/reproduction; interpolation at stored heights for families of 1..5 curves; radius-correction "
+        "identities; UHTR curves of single, grid, L, U, rectangular and irregular fields against a Gauss-Legendre FLS oracle (self-checked "
+        "against adaptive quadrature each run). Irregular-field deviation of pygfunction's 'equivalent' solver is a listed known finding.",
+        note="pygfunction trusted only through this comparison; tolerances read relative to max(1,|g|)",
+        ref="DESIGN.md section 2 C11",
+    ),
+    "C15": dict(
+        technique="post-conversion assertions on the object returned by the real to_single(); independent geometric areas and resistance recomputation",
+        text="Exploration: double-U (series/parallel), coaxial and single-U exchangers with generated geometry/fluids/flows (laminar to turbulent) "
+        "are converted by the real code; fluid and pipe-wall areas, recomputed R_fp vs the method's target, Rb* of both exchangers and "
+        "non-mutation of the original are asserted. Two clamp mechanisms are listed known findings.",
+        note="resistance target recomputed from the input dimensions with the formulas the method documents; Rb* from pygfunction",
+        ref="DESIGN.md section 2 C15",
+    ),
     "C16": dict(
         technique="icontract post-condition on the real point_polygon_check; exact rational crossing-number oracle; exhaustive small scope + random",
         text="Exploration with an exhaustive sub-scope: all simple 3..5-gons (quick) / 3..6-gons (thorough) on the 4x4 lattice x 81 "
